@@ -93,7 +93,7 @@ class Ctx(object):
         self.tlc_cmds.append("%s: %s" % (label, _short_cmd(r.cmd)))
 
     def model_check(self, module, cfg=None, cfg_text=None, workers=NCPU, env=None, label=None, timeout=7200,
-                    expect_violation=False, coverage=True, heap="12g", args=()):
+                    expect_violation=False, coverage=True, heap="12g", args=(), allow_zero=()):
         """(S) spec-level model checking. Must pass (or must fail when expect_violation)."""
         r = tlc.run(module, cfg=cfg, cfg_text=cfg_text, workers=workers, env=env, timeout=timeout,
                     scratch=self.scratch, coverage=coverage, heap=heap, args=args)
@@ -108,7 +108,7 @@ class Ctx(object):
         if r.violated or not r.ok:
             raise Machinery("%s: spec-level model checking failed (rc=%s): %s\n%s" % (label, r.rc, r.violated, r.tail(60)))
         if coverage:
-            z = r.coverage_zero()
+            z = [a for a in r.coverage_zero() if a not in allow_zero]
             if z:
                 raise Machinery("%s: actions never taken (vacuous model): %s" % (label, z))
         return r
@@ -386,3 +386,39 @@ def _brief(e):
         s = json.dumps(v)
         out[k] = v if len(s) < 300 else s[:300] + "..."
     return out
+
+
+def judge_traces(ctx, modname, cases, trace_module, cfg_text, describe, shard=3000, env=None, chunk=50,
+                 nontrivial=None, heap="3g"):
+    """Like judge(), for stateful objects: execute(case) returns a list of events (one trace,
+    starting with a 'new' event); a trace is never split across TLC shards.
+    Returns failing (case-with-failing-step, event, clauses, triggers)."""
+    for i, c in enumerate(cases):
+        c["id"] = i + 1
+    traces = execute_all(modname, cases, chunk=chunk)
+    events = []
+    owner = []
+    for ci, tr in enumerate(traces):
+        for si, e in enumerate(tr):
+            e["id"] = len(events) + 1
+            e["tr"] = ci
+            events.append(e)
+            owner.append((ci, si))
+    ctx.evaluations += len(events)
+    ctx.traces_validated += len(traces)
+    if nontrivial is not None:
+        for c, tr in zip(cases, traces):
+            k = nontrivial(c, tr)
+            if k is not None:
+                ctx.nontrivial.add(k)
+    if not ctx.samples:
+        step = max(1, len(cases) // 6)
+        ctx.samples = [{"case": describe(cases[i]), "last_event": _brief(traces[i][-1])} for i in range(0, len(cases), step)][:8]
+    verdicts = ctx.validate(trace_module, events, cfg_text, shard=shard, env=env, group=lambda e: e["tr"], heap=heap)
+    failing = []
+    for vid, clauses, triggers, _rest in verdicts:
+        ci, si = owner[vid - 1]
+        c = dict(cases[ci])
+        c["fail_step"] = si
+        failing.append((c, events[vid - 1], clauses, triggers))
+    return failing
